@@ -99,6 +99,7 @@ def Chain.terminatesMTLS (c : Chain) : Bool := c.transportTLS && c.sock == .mtls
 structure LChain where
   dst   : Option Nat
   chain : Chain
+  lst   : Option Nat := none     -- the listener: `none` = virtualInbound, `some p` = custom listener bound to port p
   deriving DecidableEq, Repr
 
 /-- `ToFilterChainMatch`: a destination port is set only for a target port > 0. -/
@@ -117,6 +118,7 @@ structure SvcPort where
   target  : Nat
   proto   : LProto
   userTLS : Bool := false
+  bind    : Bool := false     -- `bindToPort` (Sidecar ingress captureMode NONE): a real listener on the port
   deriving DecidableEq, Repr
 
 /-- `getTLSFilterChainMatchOptions` + `BuildListenerTLSContext` (SIMPLE): the chain for a Sidecar
@@ -124,31 +126,85 @@ structure SvcPort where
 def userTLSChain (proto : LProto) : Chain :=
   { transportTLS := true, terminate := true, http := proto == .http, alpn := .any, sock := .tls }
 
+/-- Where the chains of a chain config go: `inboundCustomListener` when it binds to its port, else
+    the virtualInbound listener. -/
+def SvcPort.listener (sp : SvcPort) : Option Nat := if sp.bind then some sp.target else none
+
 /-- The chains of one chain config (`buildInboundListeners`, loop body). -/
 def entryChains (m : Merged) (sp : SvcPort) : List LChain :=
   if sp.userTLS && m.modeForPort sp.target == .disable then
-    [{ dst := dstOf sp.target, chain := userTLSChain sp.proto }]
-  else chainsFor m sp.target sp.proto
+    [{ dst := dstOf sp.target, chain := userTLSChain sp.proto, lst := sp.listener }]
+  else (chains (m.modeForPort sp.target) sp.proto).map
+    (fun c => { dst := dstOf sp.target, chain := c, lst := sp.listener })
 
-/-- `needPerPortPassthroughFilterChain`: the port is not the target port of one of the proxy's
-    services / not an ingress listener port of its Sidecar. -/
-def needPerPort (svcPorts : List SvcPort) (port : Nat) : Bool := !(svcPorts.any (fun sp => sp.target == port))
+/-- `needPerPortPassthroughFilterChain`: the port is not declared - not the target port of one of the
+    proxy's services or, when its Sidecar has ingress listeners, not one of their ports. -/
+def needPerPort (declared : List Nat) (port : Nat) : Bool := !(declared.contains port)
+
+/-- Keep the first chain config of each target port (`chainsByPort`: a later config for a port that
+    already has one is a reported conflict and is skipped). -/
+def firstPerTargetAux (seen : List Nat) : List SvcPort → List SvcPort
+  | [] => []
+  | sp :: t => if seen.contains sp.target then firstPerTargetAux seen t
+               else sp :: firstPerTargetAux (sp.target :: seen) t
+
+def firstPerTarget (l : List SvcPort) : List SvcPort := firstPerTargetAux [] l
+
+/-- `buildInboundChainConfigs`: from the proxy's service targets when its Sidecar has no ingress
+    listener; else from the ingress listeners, to which the service targets on other ports are added when
+    `PILOT_ALLOW_SIDECAR_SERVICE_INBOUND_LISTENER_MERGE` is on (a port declared in both is taken from the
+    Sidecar). -/
+def chainConfigs (services ingress : List SvcPort) (merge : Bool) : List SvcPort :=
+  if ingress.isEmpty then firstPerTarget services
+  else if merge then
+    firstPerTarget (services.filter (fun s => !(ingress.any (fun i => i.target == s.target))) ++ ingress)
+  else firstPerTarget ingress
+
+/-- The ports `needPerPortPassthroughFilterChain` treats as declared. -/
+def declaredPorts (services ingress : List SvcPort) : List Nat :=
+  if ingress.isEmpty then services.map (fun s => s.target) else ingress.map (fun s => s.target)
 
 /-- The filter chains of the virtualInbound listener of a sidecar with the given chain configs:
     per-config chains (`ForPort` of the target port), the catch-all passthrough chains (port 0) and one
     set of passthrough chains per port-level setting whose port is not a target port (`ForPassthrough`).
-    The generator keeps one config per target port (`chainsByPort`); the harness only produces distinct
-    target ports. -/
-def inboundChains (root : String) (ps : List PA) (w : Workload) (svcPorts : List SvcPort) : List LChain :=
+    `svcPorts` = `chainConfigs ...` (one config per target port), `declared` = `declaredPorts ...`. -/
+def inboundChains (root : String) (ps : List PA) (w : Workload) (svcPorts : List SvcPort)
+    (declared : List Nat := svcPorts.map (fun s => s.target)) : List LChain :=
   let m := compose root ((initAuthn root ps).configsFor w)
   svcPorts.flatMap (entryChains m) ++
   chainsFor m 0 .auto ++
-  (m.perPort.filter (fun e => needPerPort svcPorts e.1)).flatMap (fun e => chainsFor m e.1 .auto)
+  (m.perPort.filter (fun e => needPerPort declared e.1)).flatMap (fun e => chainsFor m e.1 .auto)
+
+/-! ## HBONE (sidecar with `EnableHBONE`): `buildInboundHBONEListeners`, `Builder.ForHBONE` -/
+
+/-- `Builder.ForHBONE`: the mode is overridden to STRICT whatever the policies say
+    (`InboundMTLSSettings(HBoneInboundListenPort, ..., model.MTLSStrict)`). -/
+def forHBONEMode (_m : Merged) : MTLS := .strict
+
+/-- The transport socket of the `connect_terminate` listener (port 15008): a DownstreamTlsContext with
+    `require_client_certificate` and a validation context, independent of every PeerAuthentication. -/
+def hboneTerminateSock : Sock := .mtls
+
+/-- The filter chains of the internal listener `main_internal` behind the HBONE tunnel: one cell per
+    chain config and the catch-all, all built with mode DISABLE ("Internal chain has no mTLS": the
+    tunnel already authenticated the peer) and with the transport-protocol match cleared. -/
+def hboneInnerChains (svcPorts : List SvcPort) : List LChain :=
+  svcPorts.flatMap (fun sp => (chains .disable sp.proto).map (fun c => { dst := dstOf sp.target, chain := c })) ++
+  (chains .disable .auto).map (fun c => { dst := none, chain := c })
 
 /-- Envoy picks the chains with the most specific destination-port match: those for the port if there
     are any, else the ones without destination port. -/
-def applicable (l : List LChain) (d : Nat) : List Chain :=
+def applicableIn (l : List LChain) (d : Nat) : List Chain :=
   let specific := l.filter (fun c => c.dst == some d)
   (if specific.isEmpty then l.filter (fun c => c.dst == none) else specific).map (fun c => c.chain)
+
+/-- The listener a connection to port `d` arrives at: the custom listener bound to `d` if there is
+    one, else (iptables redirection) the virtualInbound listener. -/
+def listenerFor (l : List LChain) (d : Nat) : List LChain :=
+  let own := l.filter (fun c => c.lst == some d)
+  if own.isEmpty then l.filter (fun c => c.lst == none) else own
+
+/-- The filter chains Envoy selects for a connection to destination port `d`. -/
+def applicable (l : List LChain) (d : Nat) : List Chain := applicableIn (listenerFor l d) d
 
 end IstioModel.C10
